@@ -75,23 +75,24 @@ type runner struct {
 	faulty  bool // faults or crashes are part of this case
 	noScrib bool
 
-	pos         int // next op index of the sequential client
-	crashed     bool
-	crashF      *simdisk.Fault
-	inflight    int // batch index in flight, -1 none
-	required    map[int]bool
-	epochBatch0 int
-	snaps       map[int]*snapState
-	iters       map[int]*iterState
-	dbErr       error // persistent error state seen
-	opened      bool
-	crashes     int
-	wantTrace   bool
-	roCheck     bool
-	failedEpoch []int
-	cs          *concState
-	mutBy       map[int]int
-	recovering  bool
+	pos           int // next op index of the sequential client
+	crashed       bool
+	crashF        *simdisk.Fault
+	inflight      int // batch index in flight, -1 none
+	required      map[int]bool
+	epochBatch0   int
+	snaps         map[int]*snapState
+	iters         map[int]*iterState
+	dbErr         error // persistent error state seen
+	opened        bool
+	crashes       int
+	wantTrace     bool
+	roCheck       bool
+	failedEpoch   []int
+	cs            *concState
+	mutBy         map[int]int
+	recovering    bool
+	stopObservers bool
 }
 
 func (r *runner) probe(name string) {
@@ -280,6 +281,51 @@ func (r *runner) closeDB() {
 
 // ---- sequential driver (S-SEQ, S-CRASH, S-FAULT) ----
 
+// observer is a second client that takes snapshots while the main client
+// works and reads each of them twice, some time apart: a frozen view never
+// changes (C03, stability form: needs no model).
+func (r *runner) observer(ci int, ops []Op) {
+	scan := func(s *leveldb.Snapshot) (string, error) {
+		it := s.NewIterator(nil, nil)
+		defer it.Release()
+		var b bytes.Buffer
+		for ok := it.First(); ok; ok = it.Next() {
+			fmt.Fprintf(&b, "%x=%x;", it.Key(), it.Value())
+		}
+		return b.String(), it.Error()
+	}
+	for i := range ops {
+		db := r.db
+		if db == nil || r.stopObservers || len(r.out.Viol) > 0 {
+			return
+		}
+		s, err := db.GetSnapshot()
+		if err != nil {
+			return
+		}
+		a, e1 := scan(s)
+		if ops[i].Ms > 0 {
+			simrt.Sleep(time.Duration(ops[i].Ms) * time.Millisecond)
+		} else {
+			simrt.Yield("harness.observer")
+		}
+		b, e2 := scan(s)
+		s.Release()
+		r.probe("observer-snapshot")
+		if e1 == nil && e2 == nil && a != b {
+			r.viol("snap-unstable", "snap-unstable", fmt.Sprintf("two scans through the same snapshot differ:\n first: %s\n later: %s", clip(a, 600), clip(b, 600)))
+			return
+		}
+	}
+}
+
+func clip(s string, n int) string {
+	if len(s) > n {
+		return s[:n] + "..."
+	}
+	return s
+}
+
 func (r *runner) mainSeq() {
 	ops := r.c.Clients[0]
 	for {
@@ -293,7 +339,26 @@ func (r *runner) mainSeq() {
 		}
 		simrt.GoEpoch(r.disk.Epoch+1000, "client", func() {
 			defer ev.Set()
+			var wg simrt.WaitGroup
+			if len(r.c.Clients) > 1 && len(r.c.Faults) == 0 {
+				if !r.ensureOpen() {
+					return
+				}
+				for ci := 1; ci < len(r.c.Clients); ci++ {
+					ci := ci
+					wg.Add(1)
+					simrt.Go(fmt.Sprintf("client%d", ci), func() {
+						defer wg.Done()
+						r.observer(ci, r.c.Clients[ci])
+					})
+				}
+			}
 			r.clientSeq(ops)
+			r.stopObservers = true
+			wg.Wait()
+			if r.db != nil && len(r.out.Viol) == 0 {
+				r.closeDB()
+			}
 		})
 		ev.Wait()
 		if !r.crashed {
@@ -406,7 +471,7 @@ func (r *runner) clientSeq(ops []Op) {
 	if r.db != nil && len(r.out.Viol) == 0 {
 		r.finalChecks()
 	}
-	if r.db != nil && len(r.out.Viol) == 0 {
+	if r.db != nil && len(r.out.Viol) == 0 && len(r.c.Clients) == 1 {
 		r.closeDB()
 	}
 	if len(r.out.Viol) > 0 {
@@ -418,7 +483,7 @@ func (r *runner) clientSeq(ops []Op) {
 func (r *runner) finalChecks() {
 	if r.c.Prop == "C07" || r.c.Prop == "C11" {
 		r.releaseHandles()
-		if !r.faulty {
+		if !r.faulty || r.c.TableFaultsOnly && r.disk.Healed {
 			r.settleCheck()
 		}
 	}
@@ -1050,7 +1115,7 @@ func (r *runner) execOp(op *Op, tx *txCtx) {
 		simrt.IdleFor(time.Duration(op.Ms) * time.Millisecond)
 		r.probe("sleep")
 	case "settle":
-		if len(r.iters) == 0 && !r.faulty {
+		if len(r.iters) == 0 && (!r.faulty || r.c.TableFaultsOnly && r.disk.Healed) {
 			r.settleCheck()
 		} else {
 			simrt.Quiesce()
